@@ -237,6 +237,14 @@ def build_value(bc, kind, param, enc, seed, bit):
         return text(param, salt, [c for c in safe if c != ' '])
     if kind == 'OVER':
         return text(param, salt, safe)
+    if kind == 'TP':
+        # content patterns that look like padding, absence, numbers or structure: param = [length, pattern index]
+        n, pi = param
+        body = text(n, salt, [c for c in safe if c not in ' 0'])
+        pats = [' ' * n, '0' * n, (' ' + body)[:n], (body[:max(0, n - 1)] + ' ')[:n] if n > 1 else ' ', '@' * n,
+                ('016' + body)[:n], ('None' + body)[:n], ('0' + body)[:n], (body[:max(0, n - 2)] + '00')[:n],
+                ('\\' * n)[:n]]
+        return pats[pi % len(pats)]
     if kind == 'N':
         return number_value(bc['field_length'], param, salt)
     if kind == 'VN':          # number in a variable-length field: param = number of digits (or 0 for the value zero)
@@ -270,9 +278,14 @@ def build_message(case):
         msg['DE%d' % bit] = v
         exp['DE%d' % bit] = expected_value(bc, v)
     if case.get('pds'):
-        safe, _ = alphabets(enc)
+        safe, full = alphabets(enc)
+        # 'full': every character the codec can carry in one byte (accented letters, signs, controls) - characters
+        # whose UTF-8 form is longer than one byte are among them
+        hi = [c for c in full if ord(c) > 160] or full
         for tag, ln in case['pds']:
-            val = text(ln, seed + tag, safe) if case.get('pds_coding') != 'digits' else digits(ln, seed + tag)
+            coding = case.get('pds_coding')
+            val = digits(ln, seed + tag) if coding == 'digits' else text(ln, seed + tag, hi) if coding == 'full' \
+                else text(ln, seed + tag, safe)
             msg['PDS%04d' % tag] = val
             exp['PDS%04d' % tag] = val
     return msg, exp, cfg
@@ -327,6 +340,7 @@ def single_variants(bc, tier='quick'):
     if cls == 'var':
         out += [['T', n] for n in range(1, top + 1)]
         out += [['TF', n] for n in (1, 2, 50, top)]
+        out += [['TP', [n, pi]] for n in (1, 2, 7, top) for pi in range(10)]
         if bc.get('field_processor') == 'DE43':
             out += [['DE43', i] for i in range(len(DE43_TEXTS))]
     elif cls == 'pan':
@@ -340,8 +354,8 @@ def single_variants(bc, tier='quick'):
         out += [['PDSRAW', [n, 3]] for n in (21, 22, 500, top)]
     elif cls == 'fixed':
         w = bc['field_length']
-        out += [['T', w], ['TF', w], ['T', w]]
-        out = out[:2]
+        out += [['T', w], ['TF', w]]
+        out += [['TP', [w, pi]] for pi in range(10)]
     elif cls == 'num':
         out += [['N', i] for i in range(NUM_VARIANTS)]
     elif cls == 'varnum':
